@@ -11,7 +11,7 @@ PROP = "C20"
 HARNESS = "fdio"
 COMPONENT = "fdio"
 VARIANT = "asan"
-WRAPS = ("read", "write", "json_tokener_parse_ex")
+WRAPS = ("read", "write", "json_tokener_parse_ex", "malloc", "calloc", "realloc", "free", "strdup", "vasprintf")
 EXTRA_FLAGS = ("-pthread",)
 SLICE = 150
 TIMEOUT = 300
@@ -278,23 +278,48 @@ def depth_cases():
 
 
 # ----------------------------------------------------------------------------- cases
-def chunked(lines, n):
-    for i in range(0, len(lines), n):
-        yield lines[i:i + n]
-
-
 def gen(rng, tier):
+    """Every op is its own case (the message buffer is cleared before each op, ops are independent), so
+    each op is judged by the specification on its own; the buckets are interleaved so that every kind of
+    op shows up early in the run."""
+    buckets = gen_buckets(rng, tier)
+    # a few short multi-op cases first (they also serve as the evidence samples)
+    yield {"lines": ["write 0 n - -", "write 0 n - E", "tofile 0 n - %s ok -" % hexs(b"out.json"),
+                     "tofile 0 n - %s ENOENT -" % hexs(b"no-such-dir/out.json"),
+                     "write 0 [i1] NULL -", "write 2 {61:[i1]} NULL 1,E", "tofile 0 [i1] NULL %s ok -" % hexs(b"out.json")]}
+    yield {"lines": ["write 0 [i1,s61] 5b312c2261225d 1,2,Z,100", "write 0 [i1,s61] 5b312c2261225d 1,2,E",
+                     "read d 5b312c2261225d 1,1,1", "read d 5b312c2261225d 2,E", "read 1 5b5b315d5d -",
+                     "read 0 5b5b315d5d -", "read d 5b312c 2,Z"]}
+    names = sorted(buckets)
+    idx = {n: 0 for n in names}
+    left = sum(len(buckets[n]) for n in names)
+    while left:
+        for n in names:
+            # big buckets advance faster so that the interleaving stays roughly proportional
+            step = max(1, len(buckets[n]) // 400)
+            for _ in range(step):
+                if idx[n] < len(buckets[n]):
+                    yield {"lines": [buckets[n][idx[n]]]}
+                    idx[n] += 1
+                    left -= 1
+
+
+def gen_buckets(rng, tier):
     quick = tier == "quick"
+    B = {"depth": [], "write": [], "write-err": [], "write-split": [], "tofile": [], "read": [], "read-err": [],
+         "read-eof": [], "read-split": [], "fromfile": [], "pipe": []}
+    # ---- depth limit applied
+    for (dep, text) in depth_cases():
+        for s in ([], [1] * len(text), [3, 1, 2]):
+            B["depth"].append("read %s %s %s" % (dep, hexs(text), s2str(s)))
     # ---- trees and their serializations (pre-pass through the library)
     trees = ["[]", "{}", "i0", "s-", "[n]", "t", "{2d:n}"]
-    for _ in range(140 if quick else 500):
+    for _ in range(250 if quick else 600):
         trees.append(gen_tree(rng, rng.choice([1, 2, 3, 4]), rng.choice([2, 4, 6])))
     for approx in ([4096, 9000] if quick else [4096, 8192, 9000, 20000, 70000]):
         trees.append(big_tree(rng, approx))
     pairs = []
     for t in trees:
-        if t == "n":
-            continue
         for f in ([0] + rng.sample(FLAGSETS[1:], 1 if quick else 3)):
             pairs.append((f, t))
     sers = serialize(pairs)
@@ -307,88 +332,69 @@ def gen(rng, tier):
         L = 0 if sh == "-" else len(sh) // 2
         if L <= 20000:
             ser_texts.append(bytes.fromhex(sh) if sh != "-" else b"")
-        lines = []
         bases = base_schedules(rng, L, tier, False)
         for s in bases:
-            lines.append("write %d %s %s %s" % (f, t, sh, s2str(s)))
+            B["write"].append("write %d %s %s %s" % (f, t, sh, s2str(s)))
         for b in rng.sample(bases, min(len(bases), 2 if quick else 4)):
             if calls_of(b, L) > (60 if quick else 600):
                 continue
             for s in error_schedules(rng, b, L, tier, False):
-                lines.append("write %d %s %s %s" % (f, t, sh, s2str(s)))
+                B["write-err"].append("write %d %s %s %s" % (f, t, sh, s2str(s)))
         if L <= (24 if quick else 120):
             for p in range(1, L):
-                lines.append("write %d %s %s %s" % (f, t, sh, s2str([p])))
-                lines.append("write %d %s %s %s" % (f, t, sh, s2str([p, "E"])))
-        for ch in chunked(lines, 14):
-            yield {"lines": ch}
-    # NULL object, failing serializer, files
-    yield {"lines": ["write 0 n - -", "write 0 n - E", "tofile 0 n - %s ok -" % hexs(b"out.json"),
-                     "tofile 0 n - %s ENOENT -" % hexs(b"no-such-dir/out.json"),
-                     "write 0 [i1] NULL -", "write 2 {61:[i1]} NULL 1,E", "tofile 0 [i1] NULL %s ok -" % hexs(b"out.json")]}
+                B["write-split"].append("write %d %s %s %s" % (f, t, sh, s2str([p])))
+                B["write-split"].append("write %d %s %s %s" % (f, t, sh, s2str([p, "E"])))
     some = [(f, t, sh) for (f, t), sh in zip(pairs, sers) if sh not in ("NULL", "-")]
     for (f, t, sh) in rng.sample(some, min(len(some), 12 if quick else 80)):
         L = len(sh) // 2
-        lines = []
         for path, opn in ((b"out.json", "ok"), (b"no-such-dir/out.json", "ENOENT"), (b".", "EISDIR"),
                           (b"plainfile/x.json", "ENOTDIR"), (b"sub" * 100 + b"/x", "ENOENT")):
-            lines.append("tofile %d %s %s %s %s -" % (f, t, sh, hexs(path), opn))
+            B["tofile"].append("tofile %d %s %s %s %s -" % (f, t, sh, hexs(path), opn))
         b = rng.choice(base_schedules(rng, L, tier, False))
-        lines.append("tofile %d %s %s %s ok %s" % (f, t, sh, hexs(b"out.json"), s2str(b)))
+        B["tofile"].append("tofile %d %s %s %s ok %s" % (f, t, sh, hexs(b"out.json"), s2str(b)))
         for s in error_schedules(rng, b, L, "quick", False)[:4]:
-            lines.append("tofile %d %s %s %s ok %s" % (f, t, sh, hexs(b"out2.json"), s2str(s)))
-        yield {"lines": lines}
+            B["tofile"].append("tofile %d %s %s %s ok %s" % (f, t, sh, hexs(b"out2.json"), s2str(s)))
 
     # ---- reads
-    docs = read_docs(rng, tier, rng.sample(ser_texts, min(len(ser_texts), 150 if quick else 600)))
+    docs = read_docs(rng, tier, rng.sample(ser_texts, min(len(ser_texts), 300 if quick else 700)))
     for d in docs:
         L = len(d)
         h = hexs(d)
-        lines = []
         bases = base_schedules(rng, L, tier, True)
         for s in bases:
-            lines.append("read %s %s %s" % (rng.choice(["d", "-1", "32", "7"]), h, s2str(s)))
+            B["read"].append("read %s %s %s" % (rng.choice(["d", "-1", "32", "7"]), h, s2str(s)))
         for b in rng.sample(bases, min(len(bases), 2 if quick else 4)):
             if calls_of(b, L, 4096) > (60 if quick else 600):
                 continue
             for s in error_schedules(rng, b, L, tier, True):
-                lines.append("read d %s %s" % (h, s2str(s)))
+                B["read-err"].append("read d %s %s" % (h, s2str(s)))
         for s in eof_schedules(rng, L, tier):
-            lines.append("read -1 %s %s" % (h, s2str(s)))
+            B["read-eof"].append("read -1 %s %s" % (h, s2str(s)))
         if L <= (24 if quick else 120):
             for p in range(1, L):
-                lines.append("read d %s %s" % (h, s2str([p])))
-        for ch in chunked(lines, 14):
-            yield {"lines": ch}
-    # depth limit applied
-    lines = []
-    for (dep, text) in depth_cases():
-        for s in ([], [1] * len(text), [3, 1, 2]):
-            lines.append("read %s %s %s" % (dep, hexs(text), s2str(s)))
-    for ch in chunked(lines, 14):
-        yield {"lines": ch}
+                B["read-split"].append("read d %s %s" % (h, s2str([p])))
     # files: unopenable, real reads with imposed sizes
     for d in rng.sample(docs, min(len(docs), 10 if quick else 60)):
         h = hexs(d)
         L = len(d)
-        lines = ["fromfile %s ENOENT %s -" % (hexs(b"missing.json"), h),
-                 "fromfile %s ENOENT %s -" % (hexs(b"no-such-dir/in.json"), h),
-                 "fromfile %s ENOTDIR %s -" % (hexs(b"plainfile/in.json"), h),
-                 "fromfile %s ENOENT %s -" % (hexs(b"d" * 300), h)]
+        B["fromfile"] += ["fromfile %s ENOENT %s -" % (hexs(b"missing.json"), h),
+                          "fromfile %s ENOENT %s -" % (hexs(b"no-such-dir/in.json"), h),
+                          "fromfile %s ENOTDIR %s -" % (hexs(b"plainfile/in.json"), h),
+                          "fromfile %s ENOENT %s -" % (hexs(b"d" * 300), h)]
         for s in rng.sample(base_schedules(rng, L, tier, True), 3):
-            lines.append("fromfile %s ok %s %s" % (hexs(b"in.json"), h, s2str(s)))
+            B["fromfile"].append("fromfile %s ok %s %s" % (hexs(b"in.json"), h, s2str(s)))
         b = rng.choice(base_schedules(rng, L, tier, True))
         for s in error_schedules(rng, b, L, "quick", True)[:3]:
-            lines.append("fromfile %s ok %s %s" % (hexs(b"in.json"), h, s2str(s)))
-        yield {"lines": lines}
+            B["fromfile"].append("fromfile %s ok %s %s" % (hexs(b"in.json"), h, s2str(s)))
     # real pipes: the kernel picks the schedule
     npipes = 6 if quick else 60
     okdocs = [d for d in docs if len(d) > 0]
     for d in rng.sample(okdocs, min(len(okdocs), npipes)):
         ch = [rng.choice([1, 2, 7, 100, 4096, 5000]) for _ in range(rng.randrange(1, 12))]
-        yield {"lines": ["rpipe %s %s %s" % (rng.choice(["-1", "32", "4"]), hexs(d), s2str(ch))]}
+        B["pipe"].append("rpipe %s %s %s" % (rng.choice(["-1", "32", "4"]), hexs(d), s2str(ch)))
     for (f, t, sh) in rng.sample(some, min(len(some), npipes)):
-        yield {"lines": ["wpipe %d %s %s" % (f, t, sh)]}
+        B["pipe"].append("wpipe %d %s %s" % (f, t, sh))
     bigs = [(f, t, sh) for (f, t, sh) in some if len(sh) // 2 > 4096]
     for (f, t, sh) in bigs[:3 if quick else 12]:
-        yield {"lines": ["wpipe %d %s %s" % (f, t, sh)]}
+        B["pipe"].append("wpipe %d %s %s" % (f, t, sh))
+    return B
